@@ -101,6 +101,8 @@ type VC struct {
 	allocBlock map[string]*ssa.BasicBlock // allocation constants (and values defined from them) -> block
 	loops      []*loopInfo
 	loopHead   map[*loopInfo]*State
+	symsUsed   map[string]bool // prelude symbols the contracts of this function mention
+	symsFrozen map[string]bool // ... as found by the discovery pass
 }
 
 func (vc *VC) fresh(prefix, sort string) string {
